@@ -913,6 +913,8 @@ public:
       const uint32 numElements = unflat.ReadInt32();
       MRETURN_ON_ERROR(unflat.GetStatus());
 
+      if (numElements > (unflat.GetNumBytesAvailable()/sizeof(uint32))) return B_BAD_DATA;  // each element needs at least a length-prefix, so the buffer can't possibly hold that many
+
       this->Clear(false);
       MRETURN_ON_ERROR(this->_data.EnsureSize(numElements, true));
       return unflat.ReadFlatsWithLengthPrefixes(this->_data.HeadPointer(), numElements);
